@@ -775,6 +775,92 @@ def _may_raise(t):
     return True
 
 
+_TOTAL_FUNCS = {'len', 'str', 'repr', 'type', 'bool', 'id', 'isinstance', 'issubclass', 'hasattr', 'callable', 'set', 'frozenset',
+                'list', 'tuple', 'any', 'all', 'enumerate', 'iter', 'itertools.chain', 'itertools.chain.from_iterable', 'format',
+                'logging.getLogger', 'dict.fromkeys', 'collections.OrderedDict.fromkeys', 'more_itertools.unique_everseen'}
+_TOTAL_METHODS = {'difference', 'union', 'intersection', 'symmetric_difference', 'keys', 'values', 'items', 'copy', 'issubset',
+                  'issuperset', 'isdisjoint', 'as_tuple'}
+
+
+def _total(t):
+    """evaluating the term cannot raise and changes nothing, given that its free names hold values of the kinds the code around
+    treats them as (iterables are iterable, set / dict members are hashable, attributes read elsewhere exist). NOT total:
+    subscripts, arithmetic, ordering (`sorted` without key=str / repr, min, max), str.join, int(), next(), unknown calls."""
+    if not is_node(t):
+        return isinstance(t, (str, int, float, bool, type(None))) or (isinstance(t, tuple) and all(_total(x) for x in t))
+    k = t[0]
+    if k in ('var', 'const', 'glob', 'bv', 'lam', 'phi', 'loopout'):
+        return True
+    if k in ('attr',):
+        return _total(t[1])
+    if k in ('tuple', 'list', 'set', 'and', 'or', 'concat'):
+        return all(_total(x) for x in t[1])
+    if k == 'dict':
+        return all(x[0] == 'kw' and _total(x[1]) and _total(x[2]) for x in t[1])
+    if k == 'fstr':
+        return all(_total(x) for x in t[1])
+    if k == 'not':
+        return _total(t[1])
+    if k == 'cmp':
+        return t[1] in ('Eq', 'NotEq', 'Is', 'IsNot', 'In', 'NotIn') and _total(t[2]) and _total(t[3])
+    if k == 'if':
+        return _total(t[1]) and _total(t[2]) and _total(t[3])
+    if k in ('map', 'filter'):
+        return t[1][0] == 'lam' and _total(t[1][2]) and _total(t[2])
+    if k in ('flat',):
+        return _total(t[1])
+    if k == 'zip':
+        return all(_total(x) for x in t[1])
+    if k == 'call':
+        fn, args, kw = t[1], t[2], t[3]
+        if fn[0] == 'glob':
+            if fn[1] in _TOTAL_FUNCS and not kw:
+                return all(_total(a) for a in args)
+            if fn[1] == 'getattr' and len(args) == 3:
+                return all(_total(a) for a in args)
+            if fn[1] == 'sorted' and len(args) == 1 and len(kw) == 1 and kw[0][0] == 'key' and kw[0][1] in (G('str'), G('repr')):
+                return _total(args[0])
+            return False
+        if fn[0] == 'attr' and fn[2] in _TOTAL_METHODS and not kw:
+            return _total(fn[1]) and all(_total(a) for a in args)
+        if fn[0] == 'attr' and fn[2] == 'get' and len(args) == 2 and not kw:
+            return _total(fn[1]) and all(_total(a) for a in args)
+        return False
+    return False
+
+
+def _contains_aeq(t, y):
+    if contains(t, lambda x: x == y):
+        return True
+    dy = debruijn(y)
+    return any(x[0] == y[0] and len(x) == len(y) and debruijn(x) == dy for x in walk(t))
+
+
+def _partial_cores(c):
+    """the outermost subterms of c whose evaluation is not total"""
+    if _total(c):
+        return []
+    if is_node(c) and c[0] in ('cmp', 'not', 'and', 'or', 'tuple', 'list', 'attr', 'ge0', 'eq0', 'ne0') or \
+            (is_node(c) and c[0] == 'call' and c[1][0] == 'glob' and c[1][1] in _TOTAL_FUNCS):
+        out = []
+        for x in children(c):
+            out += _partial_cores(x)
+        if out:
+            return out
+    return [c]
+
+
+def _prepend_effect(t, e):
+    """the statement-level term t with effect e happening first on every path"""
+    if t[0] in ('ret', 'raise', 'break', 'continue') and len(t) == 3:
+        return (t[0], t[1], (e,) + tuple(t[2]))
+    if t[0] == 'if':
+        return ('if', t[1], _prepend_effect(t[2], e), _prepend_effect(t[3], e))
+    if t[0] == 'try':
+        return ('try', _prepend_effect(t[1], e), t[2])
+    return None
+
+
 class FuncLower:
     def __init__(self, program, fi, param_names=None):
         global PROGRAM
@@ -837,6 +923,21 @@ class FuncLower:
                     k = self._cps_inline(st.value, st.targets[0], rest, lw, eff)
                     if k is not None:
                         return k
+                if len(st.targets) == 1 and isinstance(st.targets[0], ast.Name) and st.targets[0].id in self.diag_locals():
+                    # a local that only feeds diagnostics disappears with them - unless computing it can raise or uses up
+                    # a one-shot iterator: then the evaluation stays part of the function
+                    try:
+                        lw2 = lw.clone()
+                        lw2.store = {}
+                        for nm in list(lw2.env):
+                            if (nm in self.locals or nm in self.params) and lw2.env[nm][0] != 'lam':
+                                lw2.env[nm] = V(nm)
+                        rhs = norm(lw2.e(st.value))
+                    except Exception:
+                        rhs = None
+                    fake = ast.Call(func=ast.Name(id='print', ctx=ast.Load()), args=[st.value], keywords=[])
+                    if rhs is None or not _total(rhs) or self._consumes_lazy(fake, lw):
+                        eff = eff + (('expr', rhs if rhs is not None else lw.e(st.value)),)
                 val = lw.e(st.value)
                 for tg in st.targets:
                     eff = self.assign(tg, val, lw, eff)
@@ -1138,8 +1239,88 @@ class FuncLower:
         if isinstance(v, (ast.Yield, ast.YieldFrom)):
             return eff + (('yield', lw.e(v.value) if v.value is not None else NONE),)
         if isinstance(v, ast.Call) and _observational(v):
-            return eff                      # logging / warnings / print: observable only on a side channel
+            # logging / warnings / print: observable only on a side channel - provided that computing what is logged cannot
+            # raise and does not use up a one-shot iterator; otherwise the evaluation stays part of the function
+            try:
+                lw2 = lw.clone()
+                lw2.store = {}                      # an attribute that was stored before is read, not recomputed
+                for nm in list(lw2.env):
+                    if (nm in self.locals or nm in self.params) and lw2.env[nm][0] != 'lam':
+                        lw2.env[nm] = V(nm)         # a name that is already bound: reading it evaluates nothing
+                args, kw = lw2._args(v)
+                parts = [norm(a) for a in args] + [norm(x) for _, x in kw]
+            except Exception:
+                parts = None
+            if parts is not None and all(_total(x) for x in parts) and not self._consumes_lazy(v, lw):
+                return eff
+            return eff + tuple(('expr', x) for x in (parts or [lw.e(v)]) if not _total(x)) + \
+                ((('expr', call(G('__consume__'), [C(ast.unparse(v)[:80])])),) if self._consumes_lazy(v, lw) else ())
         return eff + (('expr', lw.e(v)),)
+
+    def diag_locals(self):
+        """locals every read of which is inside a logging / warning / print statement, or is the test of an `if` that guards
+        nothing but such statements"""
+        if getattr(self, '_diag_locals', None) is not None:
+            return self._diag_locals
+        def diag_stmt(st):
+            return isinstance(st, ast.Pass) or (isinstance(st, ast.Expr) and isinstance(st.value, ast.Call) and _observational(st.value))
+        inside = set()      # ids of Name nodes read in a diagnostic position
+        for n in ast.walk(self.fi.node):
+            if isinstance(n, ast.Expr) and isinstance(n.value, ast.Call) and _observational(n.value):
+                inside |= {id(x) for x in ast.walk(n) if isinstance(x, ast.Name)}
+            elif isinstance(n, ast.If) and n.body and all(diag_stmt(b) for b in n.body + n.orelse):
+                inside |= {id(x) for x in ast.walk(n.test) if isinstance(x, ast.Name)}
+        reads, diag_reads, stores = {}, {}, {}
+        for x in ast.walk(self.fi.node):
+            if isinstance(x, ast.Name):
+                if isinstance(x.ctx, ast.Load):
+                    reads[x.id] = reads.get(x.id, 0) + 1
+                    if id(x) in inside:
+                        diag_reads[x.id] = diag_reads.get(x.id, 0) + 1
+                else:
+                    stores[x.id] = stores.get(x.id, 0) + 1
+        self._diag_locals = {nm for nm, k in diag_reads.items() if k == reads.get(nm) and stores.get(nm) == 1
+                             and nm in self.locals and nm not in self.params}
+        return self._diag_locals
+
+    def _consumes_lazy(self, callnode, lw):
+        """a diagnostic that iterates a parameter (other than *args / self) or a local bound to a lazy iterator uses it up"""
+        a = self.fi.node.args
+        params = {x.arg for x in a.posonlyargs + a.args + a.kwonlyargs}
+        if a.posonlyargs + a.args and self.fi.cls is not None:
+            params.discard((a.posonlyargs + a.args)[0].arg)
+        lazy = set()
+        for n in ast.walk(self.fi.node):
+            if isinstance(n, ast.Assign) and len(n.targets) == 1 and isinstance(n.targets[0], ast.Name):
+                val = n.value
+                if isinstance(val, ast.GeneratorExp) or (isinstance(val, ast.Call) and (dotted(val.func) or '').split('.')[-1] in (
+                        'map', 'filter', 'zip', 'iter', 'starmap', 'chain', 'from_iterable', 'compress', 'groupby', 'islice',
+                        'takewhile', 'dropwhile', 'filterfalse', 'accumulate', 'pairwise', 'reversed', 'enumerate')):
+                    lazy.add(n.targets[0].id)
+        # a parameter the function subscripts, asks for membership / length or calls methods on is a container, not a one-shot
+        # iterator
+        for n in ast.walk(self.fi.node):
+            if isinstance(n, (ast.Subscript, ast.Attribute)) and isinstance(n.value, ast.Name):
+                params.discard(n.value.id)
+            elif isinstance(n, ast.Compare) and any(isinstance(o, (ast.In, ast.NotIn)) for o in n.ops):
+                for c_ in n.comparators:
+                    if isinstance(c_, ast.Name):
+                        params.discard(c_.id)
+        names = params | lazy
+        consumers = {'list', 'tuple', 'set', 'frozenset', 'sorted', 'sum', 'any', 'all', 'max', 'min', 'dict', 'join', 'len', 'next',
+                     'map', 'filter', 'zip', 'enumerate', 'chain', 'from_iterable', 'Counter', 'reversed'}
+        for arg in list(callnode.args) + [k.value for k in callnode.keywords]:
+            for n in ast.walk(arg):
+                if isinstance(n, ast.Call) and (dotted(n.func) or '').split('.')[-1] in consumers:
+                    for x in n.args:
+                        x = x.value if isinstance(x, ast.Starred) else x
+                        if isinstance(x, ast.Name) and x.id in names:
+                            return True
+                elif isinstance(n, ast.comprehension) and isinstance(n.iter, ast.Name) and n.iter.id in names:
+                    return True
+                elif isinstance(n, ast.Starred) and isinstance(n.value, ast.Name) and n.value.id in names:
+                    return True
+        return False
 
     def loop(self, st, rest, lw, eff):
         idx = self.nloops
@@ -1536,7 +1717,17 @@ def norm(t):
         if c[0] == 'const':
             return t[2] if c[1] else t[3]
         if t[2] == t[3] or (t[2][0] == t[3][0] and len(t[2]) == len(t[3]) and aeq(t[2], t[3])):
-            return t[2]
+            # both branches the same: the test decides nothing, but evaluating it still happens (it may raise) unless it is
+            # total or what it evaluates is evaluated by the branch anyway
+            cores = _partial_cores(c)
+            if all(_contains_aeq(t[2], y) for y in cores):
+                return t[2]
+            r = t[2]
+            for y in reversed(cores):
+                r = _prepend_effect(r, ('expr', y)) if r is not None else None
+            if r is not None:
+                return r
+            return t
         if c[0] in ('map', 'filter', 'concat'):
             # a list used as a test is true iff it is not empty
             return norm(('if', ('cmp', 'NotEq', call(G('len'), [c]), C(0)), t[2], t[3]))
@@ -1729,8 +1920,10 @@ def norm(t):
             hs.append(('handler', cls, body))
         out = []
         for i, h in enumerate(hs):
-            if i + 1 < len(hs) and hs[i + 1][1] == G('Exception') and h[2] == hs[i + 1][2] and h[1][0] == 'glob' \
-                    and h[1][1] not in ('KeyboardInterrupt', 'SystemExit', 'GeneratorExit', 'BaseException'):
+            classes = [h[1]] if h[1][0] == 'glob' else (list(h[1][1]) if h[1][0] == 'tuple' else [None])
+            if i + 1 < len(hs) and hs[i + 1][1] == G('Exception') and h[2] == hs[i + 1][2] and all(
+                    x is not None and x[0] == 'glob' and x[1] not in ('KeyboardInterrupt', 'SystemExit', 'GeneratorExit', 'BaseException')
+                    for x in classes):
                 continue                                 # subsumed by the catch-all that follows with the same body
             out.append(h)
         return ('try', t[1], tuple(out))
